@@ -183,7 +183,14 @@ func VH_C16_MintImport() {
 	// stale or forged claim), or from an earlier import of this very claim
 	secret2 := "0dd5ec2e70dd5ec2e70dd5ec2e70dd5ec2e70dd5ec2e70dd5ec2e70dd5ec2e70"
 	forged := strings.TrimSuffix(minted.ClaimID(), secret) + secret2
-	prior := vChoice("prior_import", 4) // 0 none, 1 other secret first, 2 same claim first, 3 other secret afterwards
+	prior := vChoice("prior_import", 5) // 0 none, 1 other secret first, 2 same claim first, 3 other secret afterwards, 4 an older claim of the same peer holds the route
+	if prior == 4 && len(valid) > 0 {
+		// an earlier, still live claim session of the same peer is routed for the same
+		// command: importing the new claim must route the command to the new session
+		older := NewSessionEntry("older-claim#1", peer, &KeyInfo{Data: []byte("0123456789abcdef0123456789abcdef"), Protocol: "AES"}, classad.New(), time.Time{}, 0, tag)
+		ic.Store(older)
+		ic.MapCommand(tag, peer, "60007", "older-claim#1")
+	}
 	switch prior {
 	case 1:
 		_, _ = ImportClaimSession(ic, forged, iopts)
